@@ -330,7 +330,7 @@ func (x *Exec) applyContract(st *State, c *ssa.Call, callee *ssa.Function, fc *F
 	for i, p := range callee.Params {
 		vars[p.Name()] = args[i]
 	}
-	env := &CEnv{x: x, vars: vars, cur: st.heap, qn: &globalQN, wmCur: st.wm, wmOld: st.wm}
+	env := &CEnv{x: x, vars: vars, cur: st.heap, qn: &x.qn, wmCur: st.wm, wmOld: st.wm}
 	n := x.callOrdinal(c)
 	for _, r := range fc.Requires {
 		x.assert(st, fmt.Sprintf("pre@%s#%d:%s", fc.Key, n, r.Label), env.evalBool(r.Expr), "precondition of "+fc.Key+": "+r.Text, c.Pos())
@@ -344,7 +344,7 @@ func (x *Exec) applyContract(st *State, c *ssa.Call, callee *ssa.Function, fc *F
 	for i := 0; i < sig.Results().Len(); i++ {
 		results = append(results, x.freshOf(st, sig.Results().At(i).Type(), fmt.Sprintf("%s.ret%d", callee.Name(), i)))
 	}
-	env2 := &CEnv{x: x, vars: map[string]SV{}, cur: st.heap, old: oldHeap, qn: &globalQN, wmOld: oldWM, wmCur: st.wm}
+	env2 := &CEnv{x: x, vars: map[string]SV{}, cur: st.heap, old: oldHeap, qn: &x.qn, wmOld: oldWM, wmCur: st.wm}
 	for k, v := range vars {
 		env2.vars[k] = v
 	}
@@ -481,7 +481,7 @@ func (x *Exec) modLicenses(fc *FuncContract, fn *ssa.Function, vars map[string]S
 		return lic[k]
 	}
 	allocs := false
-	env := &CEnv{x: x, vars: vars, cur: pre, qn: &globalQN}
+	env := &CEnv{x: x, vars: vars, cur: pre, qn: &x.qn}
 	for _, it := range items {
 		switch it.kind {
 		case "alloc":
